@@ -74,7 +74,7 @@ Init == /\ cands \in {f \in [Cmds -> (SUBSET Nodes) \ {{}}] : "n1" \in f["A"]}
         /\ clean = Clean0
         /\ now = 0 /\ faults = 0 /\ restarts = 0 /\ h = <<>>
 
-Hist(e) == h' = IF Gen THEN Append(h, e) ELSE h
+Hist(e) == (Gen => Len(h) < MaxLen) /\ h' = IF Gen THEN Append(h, e) ELSE h
 SetToSeq(S) == LET RECURSIVE f(_) f(X) == IF X = {} THEN <<>> ELSE LET x == CHOOSE y \in X : TRUE IN <<x>> \o f(X \ {x}) IN f(S)
 Ev(a, k, x, f) == [a |-> a, k |-> k, x |-> x, f |-> f]
 FaultOK(f) == f \in {"ok", "fail"} /\ (f = "fail" => faults < MaxFaults)
@@ -332,8 +332,8 @@ CmdStep(k) ==
 CleanStep == CleanBegin \/ CleanMid \/ CleanEnd \/ \E n \in Nodes, f \in {"ok", "fail"} : CleanTaint(n, f) \/ CleanReason(n, f)
 EnvStep == Tick \/ Restart \/ \E k \in Cmds, i \in Idx : ReplInit(k, i) \/ ReplVanish(k, i)
 
-Next == /\ (Gen => Len(h) < MaxLen)
-        /\ ((\E k \in Cmds : CmdStep(k)) \/ CleanStep \/ EnvStep)
+\* a plain disjunction of the named actions (TLC reports coverage per action)
+Next == (\E k \in Cmds : CmdStep(k)) \/ CleanStep \/ EnvStep
 Spec == Init /\ [][Next]_vars
 \* the controllers keep running (fault and restart budgets are finite, so the fault-free variants eventually run)
 FairSpec == Spec /\ WF_vars(CleanStep) /\ \A k \in Cmds : WF_vars(CmdStep(k))
